@@ -19,6 +19,9 @@ CHECKS = {
  "C05": dict(engine="layout", design="5 C05", technique="TLA+ TABEAM/EEAM writer models, DeclaredCountIsBlockCount and BlockCensus invariants by TLC; replay through writeTABEAM*, tabulation classes, .ini and CLI with exact %f oracle",
    text="Declared function count = number of blocks = n(n+5)/2 or 3n(n+1)/2; one pair block per unordered pair (zero-filled, either orientation), embe/dens census, block headers n/0/(n-1)step and n values at i*step.",
    note="Trusted: keyword-based TABEAM reader model."),
+ "C17": dict(engine="layout", design="5 C17", technique="TLA+ fault model (Layout.tla: EvalFails at every evaluation k, flush discipline per writer) model-checked with TLC; every failing position replayed on the real writers through recording file objects, the potable CLI with a formula leaving its domain, and a second write() on the same object",
+   text="TLC checks AllOrNothing / WholeOrNothing for every writer model and every failing evaluation k; the replay makes the k-th evaluation of the real write raise for every k of every model (API routes), makes a formula leave its domain at first/middle/last grid index of every function slot (Configuration and CLI routes, with a pre-existing output file), and requires an empty sink / empty-or-absent file, and that a later write() of the same object emits the whole table or nothing.",
+   note="Fault = exception from a user function evaluation; I/O errors of the file system are out of scope. Three genuine defects found and repaired (known_findings.json F11a, F11b, F17)."),
  "C19": dict(engine="layout", design="5 C19", technique="TLA+ writer models for GULP, ADP, funcfl and the three Excel targets with reader models, invariants by TLC; replay with exact rational oracle (funcfl: Z^2*27.2*0.529/r against the pair probe)",
    text="Same machinery as C01/C03 for the secondary targets; ADP is checked to be the setfl file of the same model followed by unscaled dipole and quadrupole arrays in (i, j<=i) order.",
    note="Excel workbooks are compared at cell level through openpyxl."),
